@@ -965,7 +965,9 @@ class DirectoryRecord:
 
         underflow = False
         total_size = (num_extents - 1) * logical_block_size + dirrecord_offset
-        if (self.data_length - total_size) > logical_block_size:
+        # If the remaining records end exactly on a block boundary, the block
+        # after them is completely unused and has to go as well.
+        if (self.data_length - total_size) >= logical_block_size:
             self.data_length -= logical_block_size
             # We also have to make sure to update the length of the dot child,
             # as that should always reflect the length.
